@@ -61,6 +61,19 @@ GEN(int) @G(xs []int) {
 	n := 0
 	for range xs { n++ }
 	YIELD(2000 + n)
+	v = -1
+	for _, v = range xs { // value only, '=' form: assigns the OUTER v
+		YIELD(5000 + v)
+	}
+	YIELD(6000 + v)
+	seen := func() int { return v }
+	for _, v = range xs { n += v }
+	YIELD(7000 + seen())
+	i = -1
+	for i = range xs { n++ } // key only, '=' form
+	YIELD(8000 + i)
+	for i, _ = range xs { n++ }
+	YIELD(8500 + i)
 	for k := range xs { YIELD(3000 + k) }
 	for _, w := range xs { YIELD(4000 + w) }
 	RETURN
@@ -829,6 +842,29 @@ GEN(any) @Sentinels(n int) {
 	YIELD(x) // a local
 	RETURN
 }
+GEN([]int) @Rows(n int) {
+	for i := 0; i < n; i++ {
+		YIELD([]int{0, 0}) // a fresh slice every time the yield is reached
+	}
+	RETURN
+}
+GEN(map[string]int) @Maps(n int) {
+	for i := 0; i < n; i++ {
+		YIELD(map[string]int{"k": 1})
+	}
+	RETURN
+}
+GEN(int) @Fresh(n int) {
+	RANGEITER(row, :=, GENCALL([]int, @Rows, n)) {
+		YIELD(row[0]) // 0 every time: nobody has touched this slice yet
+		row[0] = 7
+	}
+	RANGEITER(m, :=, GENCALL(map[string]int, @Maps, n)) {
+		YIELD(len(m))
+		m["extra"] = 1
+	}
+	RETURN
+}
 GEN(string) @Strs(n int) {
 	YIELD("lit")
 	YIELD("a" + "b")
@@ -836,7 +872,7 @@ GEN(string) @Strs(n int) {
 	YIELD([]string{"p", "q"}[@id("sidx", n % 2)])
 	RETURN
 }`, Drives: []Drive{gen("any", "@Head", "1"), gen("any", "@Loop", "0"), gen("any", "@Loop", "1"), gen("any", "@Loop", "3"),
-		gen("int", "@Ops", "2"), gen("string", "@Strs", "1"), gen("int", "@Globals", "3"), gen("int", "@Globals", "0"), gen("any", "@Sentinels", "4")}},
+		gen("int", "@Ops", "2"), gen("string", "@Strs", "1"), gen("int", "@Globals", "3"), gen("int", "@Globals", "0"), gen("any", "@Sentinels", "4"), gen("int", "@Fresh", "3")}},
 
 	// ---------------- C18 / C02: panics and effects at precise points ----------------
 	{Name: "PanicPositions", Props: []string{"C18", "C02"}, Src: `
